@@ -86,11 +86,12 @@ def walk(rd, nsectors, verify, rd_sym=None, is_concrete=lambda x: isinstance(x, 
     ok = tag(fsd, 256, fsd_lbn, ok, verify)
     root_lbn = le(fsd, 404, 4)
     tree = {}
+    symlinks = {}
     blocks = []        # every partition block referenced (for the partition-length check)
-    todo = [('', root_lbn)]
+    todo = [('', root_lbn, root_lbn)]
     ndirs = nfiles = 0
     while todo:
-        path, lbn = todo.pop(0)
+        path, lbn, parent_lbn = todo.pop(0)
         fe = rd((part_start + lbn) * 2048, 2048)
         ok = tag(fe, 261, lbn, ok, verify)
         blocks.append(lbn)
@@ -112,6 +113,7 @@ def walk(rd, nsectors, verify, rd_sym=None, is_concrete=lambda x: isinstance(x, 
                 raise Bad('symbolic directory length')
             data = rd((part_start + apos) * 2048, info_len)
             off = 0
+            nparent = 0
             while off < info_len:
                 fid = data[off:off + 38]
                 ok = tag(fid, 257, apos + off // 2048, ok, False)
@@ -124,13 +126,19 @@ def walk(rd, nsectors, verify, rd_sym=None, is_concrete=lambda x: isinstance(x, 
                 rec += (4 - rec % 4) % 4
                 if verify:
                     tag(data[off:off + rec], 257, apos + off // 2048, True, True)
-                if not ch & 8:       # not the parent entry
+                if ch & 8:
+                    # ECMA-167 4/14.4.3 / 4/8.6: the parent entry identifies the ICB of the parent directory (the root is its own parent)
+                    ok = ok & (icb == parent_lbn)
+                    nparent = nparent + 1
+                else:
                     p = path + '/' + name[1:].hex()
                     tree[p] = None
-                    todo.append((p, icb))
+                    todo.append((p, icb, lbn))
                     tree[p] = ('d' if ch & 2 else 'f', icb)
                 off += rec
             ok = ok & (off == info_len)
+            if nparent != 1:
+                raise Bad('directory %r has %d parent entries' % (path, nparent))
             for k in range((info_len + 2047) // 2048):
                 blocks.append(apos + k)
         else:
@@ -139,8 +147,18 @@ def walk(rd, nsectors, verify, rd_sym=None, is_concrete=lambda x: isinstance(x, 
             for alen, apos in ads:
                 tot = tot + (alen % (1 << 30))
             ok = ok & (tot == info_len) & (recorded == (info_len + 2047) // 2048)
+            if ftype == 12:
+                # symbolic link: the body (path components, ECMA-167 4/14.16) is the file's data
+                if not is_concrete(info_len) or len(ads) != 1:
+                    raise Bad('symbolic link %r with a symbolic or fragmented body' % path)
+                bpos = (part_start + ads[0][1]) * 2048
+                if is_concrete(bpos) or rd_sym is None:
+                    symlinks[path] = rd(bpos, info_len)
+                else:
+                    symlinks[path], cb = rd_sym(bpos, info_len)
+                    ok = ok & cb
             if path in tree or path == '':
                 kind, icb = tree.get(path, ('f', lbn))
                 tree[path] = (kind, icb, info_len, ads[0][1] if ads else None, ftype)
     return tree, ok, {'part_start': part_start, 'part_len': part_len, 'num_files': num_files, 'num_dirs': num_dirs, 'nfiles': nfiles, 'ndirs': ndirs,
-                      'blocks': blocks}
+                      'blocks': blocks, 'symlinks': symlinks}
